@@ -899,7 +899,14 @@ func (tb *TB) slice(x *ssa.Slice) *Term {
 			}
 			if allFull {
 				arr := al.Type().(*types.Pointer).Elem().Underlying().(*types.Array)
-				return tb.makeSliceFrom(x, ssa.NewConst(constant.MakeInt64(arr.Len()), types.Typ[types.Int]))
+				t := tb.makeSliceFrom(x, ssa.NewConst(constant.MakeInt64(arr.Len()), types.Typ[types.Int]))
+				// all views are the one array: the buffer's identity is the array, not the view
+				if t != nil && (t.Op == "Rand" || t.Op == "ReadN" || t.Op == "Zero" || t.Op == "Copy") && t.V == ssa.Value(x) {
+					n := *t
+					n.V = al
+					return &n
+				}
+				return t
 			}
 		}
 	}
